@@ -232,26 +232,30 @@ func r07_3(c *Ctx, r *Report) {
 	r.rule(rule, "Funnels. NewSolarFromYmd/Date/JulianDay and NextDay/NextMonth/NextYear/NextHour/Next return only values produced by NewSolar; NewLunarFromYmd, NewLunarTime, NewTao*, NewFoto* reach NewLunar; GetLunar reaches NewLunarFromSolar.")
 	solarFunnel := map[string]bool{"calendar.NewSolar": true}
 	names := []string{"calendar.NewSolarFromYmd", "calendar.NewSolarFromDate", "calendar.NewSolarFromJulianDay", "calendar.(*Solar).NextDay", "calendar.(*Solar).NextMonth", "calendar.(*Solar).NextYear", "calendar.(*Solar).NextHour", "calendar.(*Solar).Next"}
-	for iter := 0; iter < 3; iter++ {
-		for _, name := range names {
-			fn := c.FuncBy[name]
-			if fn == nil {
+	// the funnel set is the least fixed point over every library function that returns one value:
+	// a helper all of whose returns are funnel calls is a funnel itself
+	for changed := true; changed; {
+		changed = false
+		for _, fn := range c.Funcs {
+			if solarFunnel[fname(fn)] || fn.Signature.Results().Len() != 1 || len(fn.Blocks) == 0 {
 				continue
 			}
-			all := true
+			all, n := true, 0
 			for _, b := range fn.Blocks {
 				for _, ins := range b.Instrs {
 					ret, ok := ins.(*ssa.Return)
 					if !ok || len(ret.Results) != 1 {
 						continue
 					}
+					n++
 					if !fromFunnel(ret.Results[0], solarFunnel, map[ssa.Value]bool{}) {
 						all = false
 					}
 				}
 			}
-			if all {
-				solarFunnel[name] = true
+			if all && n > 0 {
+				solarFunnel[fname(fn)] = true
+				changed = true
 			}
 		}
 	}
